@@ -9,13 +9,30 @@ import (
 	tea "github.com/charmbracelet/bubbletea"
 )
 
-// `every` stream: the delay expression of Every against Go's own time package.
+// `every` stream: the delay Every computes (its statements interpreted on the AST of the
+// current source with Go's own time package, see timeexpr.go) against the Lean model.
 // op: "<unix-ns> <d-ns>"  ->  "<delay-ns>"
 func streamEvery(c *corrOut, r *rng, n int, thorough bool) map[string]interface{} {
+	fs, ferr := loadFacts(repoDir())
 	emit := func(unixNs int64, d int64) {
 		nn := time.Unix(0, unixNs)
 		dur := time.Duration(d)
-		delay := nn.Truncate(dur).Add(dur).Sub(nn)
+		// the delay Every computes: its own statements (the AST of /repo's current source)
+		// interpreted with Go's time package, `nn` standing for time.Now()
+		if ferr != nil {
+			c.emit(fmt.Sprintf("%d %d", unixNs, d), "cannot read the source: "+ferr.Error(), "error")
+			return
+		}
+		delay, why := timerDelay(fs, "Every", nn, dur)
+		if why != "" {
+			c.emit(fmt.Sprintf("%d %d", unixNs, d), why, "error")
+			return
+		}
+		// Tick arms its timer with exactly the duration it was given
+		if td, twhy := timerDelay(fs, "Tick", nn, dur); twhy != "" || td != dur {
+			c.addFinding(finding{Property: "C20", Class: "new", What: "Tick does not arm a timer of the given duration when the command is created",
+				Input: fmt.Sprintf("%d %d", unixNs, d), Expected: fmt.Sprint(d), Observed: fmt.Sprintf("%d %s", int64(td), twhy)})
+		}
 		bucket := "positive"
 		if d <= 0 {
 			bucket = "nonpositive"
